@@ -226,7 +226,7 @@ def renamer_tasks(tier):
     for t in ('arg_rename_in_place', 'namebinding_init', 'binder_get_binding', 'name_binder_visitors', 'has_private_names', 'resolve_get_binding', 'resolve_names', 'namebinding_rename', 'name_assigner', 'reservation_scope', 'allow_rename',
               'taint_alias'):
         ts.append(Task('renamer.' + t, 'contracts.renamer:task_' + t))
-    for t in ('hoist_visitors', 'hoisted_value', 'insert', 'placement', 'cost_model'):
+    for t in ('hoist_visitors', 'hoist_call', 'hoisted_value', 'insert', 'placement', 'cost_model'):
         ts.append(Task('hoist.' + t, 'contracts.hoist:task_' + t))
     ts.append(Task('pipeline.minify', 'contracts.pipeline:task_minify'))
     ts.append(Task('pipeline.awslambda', 'contracts.pipeline:task_awslambda'))
